@@ -106,49 +106,57 @@ fn spawn(exe: &std::path::Path, t: u8, r: u8, m: u8, set: &str, seed: u64, extra
   (done, open, why)
 }
 
+/// all sweeps of one header configuration on one address set; one protocol line per sweep
+fn run_config(exe: &std::path::Path, t: u8, r: u8, m: u8, set: &str, opts: &Opts, w: &mut dyn Write) {
+  let addrs = addr_set(set == "all", opts.seed);
+  let nsweeps = REG_PREFIXES.len() * KINDS.len();
+  let mut results: Vec<Option<String>> = vec![None; nsweeps];
+  let mut from = 0usize;
+  while from < nsweeps {
+    let (done, open, why) = spawn(exe, t, r, m, set, opts.seed, &[String::from("--from"), from.to_string()]);
+    for (i, s) in done { results[i] = Some(format!("died=none {}", s)); }
+    match open {
+      Some(i) => {
+        // bisect the dying sweep: smallest number of accesses that kills the child
+        let (mut lo, mut hi) = (0usize, addrs.len());
+        while hi - lo > 1 {
+          let mid = (lo + hi) / 2;
+          let (d, _, _) = spawn(exe, t, r, m, set, opts.seed, &[String::from("--only"), i.to_string(), String::from("--upto"), mid.to_string()]);
+          if d.len() == 1 { lo = mid; } else { hi = mid; }
+        }
+        let (d0, _, _) = spawn(exe, t, r, m, set, opts.seed, &[String::from("--only"), i.to_string(), String::from("--upto"), String::from("0")]);
+        if d0.len() == 1 {
+          results[i] = Some(format!("died={}:{}:{} dig=0 img=0", hi - 1, addrs[hi - 1], why));
+        } else {
+          results[i] = Some(format!("died=setup-or-image:0:{} dig=0 img=0", why));
+        }
+        from = i + 1;
+      },
+      None => { from = nsweeps; },
+    }
+  }
+  for i in 0..nsweeps {
+    let (ri, kind) = (i / KINDS.len(), KINDS[i % KINDS.len()]);
+    let regs: Vec<String> = REG_PREFIXES[ri].iter().map(|(a, v)| format!("{}:{}", a, v)).collect();
+    writeln!(w, "c11 type={} rom={} ram={} banks={} ramb={} regs={} kind={} set={} seed={} | {}", t, r, m, rom_bank_count(r), header(t, r, m).get_ram_size_bytes(), regs.join(";"), kind, set, opts.seed,
+      results[i].clone().unwrap_or_else(|| String::from("died=unknown dig=0 img=0"))).unwrap();
+  }
+}
+
+/// quick: 150 header configurations on the boundary address set. thorough: all 504 configurations (7 supported
+/// types x 12 ROM-size codes x 6 RAM-size codes) on the boundary set, and every 13th of them (38 configurations
+/// covering every type, every ROM code and every RAM code) additionally on all 65 536 addresses.
 pub fn run(sub: &str, opts: &Opts, w: &mut dyn Write) {
   if sub == "child" { child(opts); return; }
   let exe = std::env::current_exe().unwrap();
   let (shard, nshards) = opts.shard();
-  let set = if opts.thorough { "all" } else { "b" };
   let types: Vec<u8> = if opts.thorough { TYPES.to_vec() } else { vec![0x00, 0x01, 0x03, 0x11, 0x13] };
   let roms: Vec<u8> = if opts.thorough { ROM_CODES.to_vec() } else { vec![0, 1, 4, 6, 0x52] };
-  let addrs = addr_set(opts.thorough, opts.seed);
-  let nsweeps = REG_PREFIXES.len() * KINDS.len();
   let mut idx = 0usize;
   for &t in types.iter() { for &r in roms.iter() { for &m in RAM_CODES.iter() {
     idx += 1;
     if idx % nshards != shard { continue; }
-    let mut results: Vec<Option<String>> = vec![None; nsweeps];
-    let mut from = 0usize;
-    while from < nsweeps {
-      let (done, open, why) = spawn(&exe, t, r, m, set, opts.seed, &[String::from("--from"), from.to_string()]);
-      for (i, s) in done { results[i] = Some(format!("died=none {}", s)); }
-      match open {
-        Some(i) => {
-          // bisect the dying sweep: smallest number of accesses that kills the child
-          let (mut lo, mut hi) = (0usize, addrs.len());
-          while hi - lo > 1 {
-            let mid = (lo + hi) / 2;
-            let (d, _, _) = spawn(&exe, t, r, m, set, opts.seed, &[String::from("--only"), i.to_string(), String::from("--upto"), mid.to_string()]);
-            if d.len() == 1 { lo = mid; } else { hi = mid; }
-          }
-          let (d0, _, _) = spawn(&exe, t, r, m, set, opts.seed, &[String::from("--only"), i.to_string(), String::from("--upto"), String::from("0")]);
-          if d0.len() == 1 {
-            results[i] = Some(format!("died={}:{}:{} dig=0 img=0", hi - 1, addrs[hi - 1], why));
-          } else {
-            results[i] = Some(format!("died=setup-or-image:0:{} dig=0 img=0", why));
-          }
-          from = i + 1;
-        },
-        None => { from = nsweeps; },
-      }
-    }
-    for i in 0..nsweeps {
-      let (ri, kind) = (i / KINDS.len(), KINDS[i % KINDS.len()]);
-      let regs: Vec<String> = REG_PREFIXES[ri].iter().map(|(a, v)| format!("{}:{}", a, v)).collect();
-      writeln!(w, "c11 type={} rom={} ram={} banks={} ramb={} regs={} kind={} set={} seed={} | {}", t, r, m, rom_bank_count(r), header(t, r, m).get_ram_size_bytes(), regs.join(";"), kind, set, opts.seed,
-        results[i].clone().unwrap_or_else(|| String::from("died=unknown dig=0 img=0"))).unwrap();
-    }
+    run_config(&exe, t, r, m, "b", opts, w);
+    if opts.thorough && idx % 13 == 0 { run_config(&exe, t, r, m, "all", opts, w); }
   }}}
 }
